@@ -190,7 +190,11 @@ func c13Worker(args []string) int {
 		enc.Encode(map[string]any{"i": i, "d": d})
 	}
 	// kernel level: every arch-specific kernel driven directly with corner and random vectors
-	for _, l := range kernelDigests(c.Seed, c.N(20000, 400000)) {
+	var klines []string
+	if p := ev.Guard(func() { klines = kernelDigests(c.Seed, c.N(20000, 400000)) }); p != "" {
+		enc.Encode(map[string]any{"k": "kernel-exerciser-panicked", "d": strings.SplitN(p, "\n", 2)[0]})
+	}
+	for _, l := range klines {
 		if k := strings.LastIndex(l, " "); k > 0 {
 			enc.Encode(map[string]any{"k": l[:k], "d": l[k+1:]})
 		}
@@ -296,8 +300,8 @@ func runC13(c *ev.Ctx) {
 		}
 	}
 	// kernel-level digests
-	if len(kern[0]) == 0 {
-		c.Fatal("the portable build printed no kernel digests (overlay exerciser missing?)")
+	if len(kern[0]) < 50 {
+		c.Fatal("the portable build printed %d kernel digests (overlay exerciser missing or crashed: %v)", len(kern[0]), kern[0])
 	}
 	nk := 0
 	for name, ref := range kern[0] {
